@@ -188,3 +188,34 @@ def add_powell_to(chk, r, n, **kw):
     if st:
         k, dis, keys, samples = st
         chk.corr(POW_NAME, k, dis, keys, samples)
+
+
+# ----------------------------------------------------------------------------- DownhillSimplexOptimizer, complete model
+
+SIM_NAME = ("whole optimizer DownhillSimplexOptimizer (simplex from the valid lists, staleness test, step machine 1 -> 3 -> 1 | 4 ... -> 1 with checked "
+            "argsorts, outer constraint check and repair, an evaluate that only records; the three known IndexErrors - centeroid of an empty list, "
+            "shrink beyond the simplex - are PREDICTED by the model): GFO.Model.Simplex driven through the driver model by the recorded tape must emit "
+            "the same positions, rows, trace, best result or the same exception, the tracker, the simplex, step and shrink index and consume the tape exactly")
+
+
+def simplex_stage(chk, r, n, constraint_p=0.4, nonfinite_p=0.3):
+    sps = [bkgen.scenario(r, "DownhillSimplexOptimizer", constraint_p=constraint_p, nonfinite_p=nonfinite_p) for _ in range(n)]
+    dis, keys, samples = [], set(), []
+    k = 0
+    for i in range(0, len(sps), 60):
+        for s, o in loc.run_batch(sps[i:i + 60], loc.run_simplex_scenario):
+            k += 1
+            keys.add((len(s["space"]), bool(s.get("constraint")), tuple(sorted(o["tape_kinds"])),
+                      "raised-as-predicted" if o["raised"] and o["diff"] is None else ("raised" if o["raised"] else "ok")))
+            if o["diff"] is not None:
+                dis.append(dict(case=s, diff=o["diff"]))
+            elif len(samples) < 2:
+                samples.append(dict(kwargs=s["opt_kwargs"], tape_entries=o["tape_len"], tape_kinds=o["tape_kinds"], raised=o["raised"]))
+    return k, dis, keys, samples
+
+
+def add_simplex_to(chk, r, n, **kw):
+    st = chk.stage("whole-optimizer downhill simplex correspondence", simplex_stage, chk, r, n, **kw)
+    if st:
+        k, dis, keys, samples = st
+        chk.corr(SIM_NAME, k, dis, keys, samples)
